@@ -140,13 +140,14 @@ def run(ctx):
                     ratio, big[-1]["n"], mid[0]["pycalls"], big[-1]["pycalls"]), big[-1])
     # (3) liveness of untracked computations
     mx, table, c = AG.emit(rep, "live", dict(MaxNodes=4 if q else 5, GAlpha={1}, Ops={"mul"} if q else {"add", "mul"}, MaxHist=5, MaxBackward=1, MaxCtx=1,
-                                             Acts={"op", "ctx", "bw"}, InitLeaves=[dict(vec=False, rg=True), dict(vec=False, rg=False)]))
+                                             Acts={"op", "ctx", "bw", "detach"}, InitLeaves=[dict(vec=False, rg=True), dict(vec=False, rg=False)]))
     AG.replay_all(ctx, rep, mx, table, c, KINDS, label="live:", limit=30000 if q else 200000, live=True)
     steps = 20000 if q else 100000
     # untracked loops.  no_grad: a fresh context; no_req: no operand requires grad; reentered: a no_grad object built
     # while tracking was on is entered and left again inside the block at every step; opt_step: an optimizer takes a
     # step inside the block at every step (running averages of the weights) - tracking must stay off after either
-    for mode in ("no_grad", "no_req", "reentered", "opt_step_sgd", "opt_step_adam"):
+    # detached: tracking is ON, the state is carried through detach() at every step (truncated back-propagation)
+    for mode in ("no_grad", "no_req", "reentered", "opt_step_sgd", "opt_step_adam", "detached"):
         w = sg.Tensor(np.array(1.0, dtype=np.float32), requires_grad=(mode != "no_req"))
         x = sg.Tensor(np.array(1.0, dtype=np.float32))
         refs = []
@@ -155,7 +156,7 @@ def run(ctx):
         if mode.startswith("opt_step"):
             w.grad = sg.Tensor(np.array(0.0, dtype=np.float32))
             opt = sg.optim.SGD([w], lr=0.0) if mode.endswith("sgd") else sg.optim.Adam([w], lr=0.0)
-        cm = sg.no_grad() if mode != "no_req" else None
+        cm = sg.no_grad() if mode not in ("no_req", "detached") else None
         if cm:
             cm.__enter__()
         try:
@@ -169,6 +170,8 @@ def run(ctx):
                 x = x * w + 0.0
                 if i % 100 == 0:
                     refs.append(weakref.ref(x))
+                if mode == "detached":
+                    x = x.detach()
         finally:
             if cm:
                 cm.__exit__(None, None, None)
